@@ -49,6 +49,9 @@ type Muxer struct {
 	// We use map[uint32] instead map[uint16] as go runtime provide optimized hash functions for (u)int32/64 keys
 	esContexts              map[uint32]*esContext
 	tablesRetransmitCounter int
+
+	// continuity counters of removed streams: a PID that is added again continues its counter
+	removedCC map[uint32]wrappingCounter
 }
 
 type esContext struct {
@@ -94,6 +97,7 @@ func NewMuxer(ctx context.Context, w io.Writer, opts ...func(*Muxer)) *Muxer {
 
 		esContexts: map[uint32]*esContext{},
 		nextPID:    startPID,
+		removedCC:  map[uint32]wrappingCounter{},
 	}
 
 	m.bufWriter = astikit.NewBitsWriter(astikit.BitsWriterOptions{Writer: &m.buf})
@@ -132,7 +136,13 @@ func (m *Muxer) AddElementaryStream(es PMTElementaryStream) error {
 
 	m.pmt.ElementaryStreams = append(m.pmt.ElementaryStreams, &es)
 
-	m.esContexts[uint32(es.ElementaryPID)] = newEsContext(&es)
+	ctx := newEsContext(&es)
+	if cc, ok := m.removedCC[uint32(es.ElementaryPID)]; ok {
+		// The continuity counter belongs to the PID: it goes on where it stopped
+		ctx.cc = cc
+		delete(m.removedCC, uint32(es.ElementaryPID))
+	}
+	m.esContexts[uint32(es.ElementaryPID)] = ctx
 	// invalidate pmt cache
 	m.pmtBytes.Reset()
 	m.pmtUpdated = true
@@ -162,6 +172,9 @@ func (m *Muxer) RemoveElementaryStream(pid uint16) error {
 	}
 
 	m.pmt.ElementaryStreams = append(m.pmt.ElementaryStreams[:foundIdx], m.pmt.ElementaryStreams[foundIdx+1:]...)
+	if ctx, ok := m.esContexts[uint32(pid)]; ok {
+		m.removedCC[uint32(pid)] = ctx.cc
+	}
 	delete(m.esContexts, uint32(pid))
 	m.pmtBytes.Reset()
 	m.pmtUpdated = true
